@@ -23,7 +23,7 @@ import common as C
 HERE = os.path.dirname(os.path.abspath(__file__))
 CORPUS = os.path.join(C.VERIF, "corpus", "C17")
 
-CLASS_NAMES = {1: "quota_not_enforced", 2: "unknown_user_other_domain", 3: "role_rejected_as_unknown"}
+CLASS_NAMES = {1: "quota_not_enforced"}
 
 # ---------------------------------------------------------------------------
 # population of every world
@@ -80,7 +80,9 @@ def rcpt_classes(fresh):
         ("rcpt_prefix_case", "To:<alice@example.com>", "alice@example.com"),
     ]
 
-SHAPE_CLASS = {"rcpt_params": "rcpt_params", "rcpt_prefix_case": "rcpt_prefix_case"}
+# recipient classes whose RCPT line the implementation is KNOWN to mis-parse (none since the fixes C17-1/C17-2:
+# the lines tagged rcpt_params / rcpt_prefix_case are ordinary cells now and must satisfy the policy)
+SHAPE_CLASS = {}
 
 # spam header variants: list of (name, lead, segments, trail); logical value computed by logical()
 SPAM_VARIANTS = [
@@ -172,7 +174,7 @@ def make_cells(chk):
 
     ncls = len(rcpt_classes("x"))
     if chk.tier == "quick":
-        picked = rng.sample(cfgs, 110)
+        picked = rng.sample(cfgs, 75)
     else:
         picked = cfgs
     k = rng.randrange(1000)
@@ -368,8 +370,7 @@ Definition spec_ok_on (c : pcase) (addrs : list str) : bool :=
   list_eqb Bool.eqb (flags_of os) (o_flags c) && same_gains (gains_of os) (o_gains c).
 Definition class_on (c : pcase) (addrs : list str) : nat :=
   match classify (c_cfg c) (c_db c) addrs (c_msg c) with
-  | None => 0 | Some K_quota_not_enforced => 1 | Some K_unknown_user_other_domain => 2
-  | Some K_role_rejected_as_unknown => 3 end%nat.
+  | None => 0 | Some K_quota_not_enforced => 1 end%nat.
 (* the addresses as the MODEL parses the lines (None when a line is refused with 501) *)
 Fixpoint all_some (l : list (option str)) : option (list str) :=
   match l with [] => Some [] | Some x :: l' => option_map (cons x) (all_some l') | None :: _ => None end.
@@ -552,7 +553,7 @@ def report_parse_diff(chk, args, impl):
     if m is None:
         chk.broken_obligation("correspondence parse no longer checks: parseRcptTo(%r) = %r differs from the model (no RFC shape: the spec is silent)" % (args, got), payload)
         return
-    cls = "rcpt_params" if m.group(3) else ("rcpt_prefix_case" if m.group(1) not in ("TO:", "to:") else None)
+    cls = None      # no listed parse class any more (C17-1, C17-2 fixed)
     if got == m.group(2):
         if cls is not None:
             chk.notes.append("parseRcptTo(%r) now returns the path %r (differs from the model inside finding class %s; informational)" % (args, got, cls))
@@ -715,7 +716,7 @@ def run(chk):
     mb, sb = set(model_bad), set(spec_bad)
     # does the implementation itself still mis-parse the two shape lines?
     shape_lines = {t: (a, x) for (t, a, x) in rcpt_classes("x") if t in SHAPE_CLASS}
-    pr = C.run_ops([{"op": "batch", "fn": "parseRcptTo", "cases": [{"a": [shape_lines[t][0]]} for t in sorted(shape_lines)]}])
+    pr = {"obs": [{"rs": []}]} if not shape_lines else C.run_ops([{"op": "batch", "fn": "parseRcptTo", "cases": [{"a": [shape_lines[t][0]]} for t in sorted(shape_lines)]}])
     shape_live = set()
     try:
         for t, r1 in zip(sorted(shape_lines), pr["obs"][0]["rs"]):
